@@ -10,26 +10,26 @@ sys.path.insert(0, HERE)
 sys.dont_write_bytecode = True
 
 TECH = {
-    "C01": "def-use + call-binding + CFG exhaustiveness over Reader.read/__init__/__getitem__ (flow-sensitive raw-sample locals); conversion-vector layout by abstract interpretation (segment vectors over metadata counts)",
-    "C02": "CFG dominance / ordering of producer-publish-unlink, dead-store dataflow, who-may-delete table, modular (stride-grid) normal forms of piecewise raw reads",
-    "C03": "polynomial tiling identity of the window writer, rounding-provenance dataflow, sibling scatter agreement, key symmetry, writer/parser agreement of the channel-subset string, split / group-by idiom models, window-state coherence (loop-carried dataflow)",
-    "C04": "CFG dominance of deletion by verification, typestate over an abstract verification state (flag / pending set / None), guard entailment, unlink tolerance",
-    "C05": "call-binding forwarding completeness, group-by idiom model for per-collection rows, ordering (shift before spatial filter), sign normal form, finite-domain label sets, sibling agreement",
-    "C06": "polynomial tiling/seek identities of the batch writer, taint / view-provenance dataflow of sync columns, fan-out binding",
-    "C07": "alias/mutation dataflow, transform-length rule, phase-sign normal form and impulse provenance in fshift, rounding-kind agreement of a whole/fraction shift split",
-    "C08": "joint-permutation shape + ordering (ADC attributes before any restriction), lexsort key model, rational grid-inverse identity, generation table exhaustiveness, closed-form delay normal form",
-    "C09": "conversion-vector layout by abstract interpretation (segment vectors, all small count assignments), evaluated decision table of the max-int lookup with call-site guards, reader/writer token agreement, value tables",
-    "C10": "symbolic bit-layout interpretation of split_sync (permutation), edge-index def-use and shape-unwrap rule in fronts/rises/falls",
-    "C11": "rounding-provenance dataflow of the frame count, CFG ordering of metadata rewrite before memmap, dependence of the rewrite's path condition on unrelated options (truth-table)",
-    "C12": "polynomial tiling identity in LF samples with divisibility facts, sibling decimation agreement, buffer-identity / disjoint-range analysis, window-state coherence, metadata def-use",
-    "C13": "call-binding forwarding, padding-sentinel domain rule, offset normal forms, row-agreement def-use, linear normal form of the admissibility test, signedness rule, sorted-search grouping model",
-    "C14": "index-bound rule, axis-discipline scan, homogeneity-degree dataflow, relation-set abstract evaluation of pre/post masks, narrow-accumulator rule",
+    "C01": "def-use + call-binding + CFG exhaustiveness over Reader.read/__init__/__getitem__ (flow-sensitive raw-sample locals, backward slice of the returned voltages, index->slice conversion under an established consecutive run); conversion-vector layout by abstract interpretation (segment vectors over metadata counts)",
+    "C02": "CFG dominance / ordering of producer-publish-unlink with an interprocedural staging summary (a callee handed the final name must write under a provably different name and publish by rename), dead-store dataflow, who-may-delete table, modular (stride-grid) normal forms of piecewise raw reads",
+    "C03": "polynomial tiling identity of the window writer, rounding-provenance dataflow, sibling scatter agreement, key symmetry, writer/parser agreement of the channel-subset string, split / group-by idiom models, window-state coherence (loop-carried dataflow), per-shank output-file model (entry keys, file effects, open modes: a file that is appended to must start empty)",
+    "C04": "CFG dominance of deletion by verification, typestate over an abstract verification state (flag / pending set / None), guard entailment, unlink tolerance, file-effect model of the prepare step (truncate / create-keep / append) against the writer's open mode",
+    "C05": "call-binding forwarding completeness, group-by idiom model for per-collection rows, ordering (shift before spatial filter), sign normal form, finite-domain label sets, sibling agreement, argument-aliasing rule (numpy view model) for the header's delay vector",
+    "C06": "batch schedule model (while or for-range form; grid start, stride, bound = max_s - 2*taper per worker, last-worker test against the fan-out's count) with polynomial tiling/seek identities (exact polynomial division), taint / view-provenance dataflow of sync columns, fan-out binding",
+    "C07": "path-sensitive substitution model of the phase factor: layout calculus (which axis every factor varies along, per path and per multiplication target), impulse / analytic ramp normal forms on the substituted exponent, argument-aliasing rule (numpy view model), transform-length rule, rounding-kind agreement of a whole/fraction shift split",
+    "C08": "joint-permutation shape + ordering (ADC attributes before any restriction), lexsort key model, rational grid-inverse identity, generation table exhaustiveness, closed-form delay normal form, site-locality rule (no reduction over the saved sites feeds a coordinate)",
+    "C09": "conversion-vector layout by abstract interpretation (segment vectors with whole-table text columns and row selections ordered numerically vs lexicographically; all small count assignments), evaluated decision table of the max-int lookup with call-site guards, reader/writer token agreement, value tables",
+    "C10": "symbolic bit-layout interpretation of split_sync (permutation), edge-index def-use and shape-unwrap rule in fronts/rises/falls, sync composition model (gathers of the raw file through locals and two-step indexing; digital / analog parts of read_sync and of read(sync=True))",
+    "C11": "rounding-provenance dataflow of the frame count (shaped and whole-file 1-D mappings, items = bytes // itemsize, exposed frames = prefix reshape), CFG ordering of metadata rewrite before a shape-dependent memmap, dependence of the rewrite's path condition on unrelated options (truth-table)",
+    "C12": "polynomial tiling identity in LF samples with divisibility facts, sibling decimation agreement, buffer-identity / disjoint-range analysis, window-state coherence, metadata def-use, shared-object dataflow through attributes bound to memoised results",
+    "C13": "call-binding forwarding, padding-sentinel domain rule, offset normal forms, row-agreement def-use (block stores need an established consecutive run), linear normal form of the admissibility test, signedness rule, sorted-search grouping model",
+    "C14": "index-bound rule, axis-discipline scan with mask / label kinds (emptiness test of a boolean mask vs truth of row labels), homogeneity-degree dataflow, relation-set abstract evaluation of pre/post masks, narrow-accumulator rule",
     "C15": "finite-domain (label-set) evaluation of row and donor selectors, CFG ordering of zeroing/threshold/normalisation for loop and matrix forms",
-    "C16": "comparator structure (direct and block-accumulated), backward slice of the mute gain, range rule, call-site column agreement, stale scratch-buffer dataflow",
-    "C17": "polynomial transfer function of the window generator, partition identity, count formula, interval-event model of the splicing amplitudes evaluated per window class",
+    "C16": "comparator structure (direct and block-accumulated) and value terms of straight-line numpy code with out= / in-place / view semantics (E14), backward slice of the mute gain, range rule, call-site column agreement, stale scratch-buffer dataflow",
+    "C17": "closed forms of the window generator by solving its loop-carried recurrences over the iteration number (local cursor / counter / mirrored attribute), cursor-locality rule, partition identity, count formula, interval-event model of the splicing amplitudes evaluated per window class",
     "C19": "(partial) pairing discipline of the matched-index vectors (one mask), one-to-one second assignment pass (axis order, both row and column blanked), normal form of the reported linear map / drift / coarse offset",
     "C20": "(partial) chunk tiling identity of the Venn counter (searchsorted bounds, chunk count, re-basing), group / fold agreement in stack, index-range partition of the Savitzky-Golay loops, pad / crop identity of the frequency-domain smoother",
-    "C18": "transform-length rule, parity-split crop / take / arange identities, un-padding bound versus transform length, filter algebra, half-spectrum length identities",
+    "C18": "transform-length rule, parity-split crop / take / arange identities (end-relative and absolute 'same' crops), un-padding bound versus transform length, fast-size table or enumeration model (one candidate per power of three, loop bound), filter algebra, half-spectrum length identities",
 }
 
 NA = {
@@ -80,7 +80,7 @@ def main():
             na.append({"property_id": pid, "reason": "check under construction in this session (static rules designed in DESIGN.md section 4, not yet registered)"})
     man = {
         "version": 1,
-        "setup_cmd": "python3-vt -c \"import sys; sys.path.insert(0, '/verif'); import sa.model, sa.cfg, sa.defuse, sa.algebra, sa.calls, sa.struct, sa.common, sa.report, sa.normalize, sa.guards, sa.roles, sa.role_table, sa.regions, sa.segvec, sa.shape; assert len(sa.normalize.vocab().get('functions', [])) > 200; print('sa engine importable')\"",
+        "setup_cmd": "python3-vt -c \"import sys; sys.path.insert(0, '/verif'); import sa.model, sa.cfg, sa.defuse, sa.algebra, sa.calls, sa.struct, sa.common, sa.report, sa.normalize, sa.guards, sa.roles, sa.role_table, sa.regions, sa.segvec, sa.shape, sa.arrterm; assert len(sa.normalize.vocab().get('functions', [])) > 200; print('sa engine importable')\"",
         "hooks": {
             "guard": "IBL_NEUROPIXEL_VERIF",
             "enable": "none needed: the checks parse /repo's source and never build or run it; no hook commits exist",
@@ -95,7 +95,7 @@ def main():
             "kind_free_text": "repository-specific static analyser: source model + resolver (E0), statement CFG with dominators/guards (E1), "
                               "reaching definitions (E2), polynomial normal forms + symbolic executor (E3), call binding (E5), structural "
                               "agreement (E6), bit-layout interpreter (E7), segment-vector model of conversion vectors (E9, sa/segvec.py), "
-                              "interval-event model of assembled arrays (E13, sa/regions.py), finite-domain / group-by / scratch-buffer / buffer-identity "
+                              "interval-event model of assembled arrays (E13, sa/regions.py), value terms of straight-line numpy code with in-place semantics (E14, sa/arrterm.py), finite-domain / group-by / scratch-buffer / buffer-identity "
                               "analyses (sa/common.py), propositional guard entailment (sa/guards.py), normalisation towards the pinned vocabulary "
                               "(sa/normalize.py) and role resolution (sa/roles.py)",
         }],
